@@ -80,8 +80,8 @@ pub fn run_plans(plans: &[Vec<PlannedStep>], cfg: sched::SimConfig) -> MtOutcome
                         }
                         "()".to_string()
                     },
-                    Op::Reset => {
-                        ctx = Ctx::new();
+                    Op::Reset | Op::ResetDefault | Op::ResetMacro => {
+                        ctx = verifsim::history::fresh_context(&step.op, None).0;
                         "()".to_string()
                     },
                     op => apply_real(&mut ctx, op, None),
